@@ -33,7 +33,8 @@ for sid in ids:
             fl = meta0['demo_features']
             fl = [x for x in fl if not x.startswith('--')] if isinstance(fl, list) else [fl]
             feats = ['--features', ','.join(fl)] if fl else []
-        demo = ['cargo', 'test', '--offline', '--test', tname] + feats + env_target
+        nightly = ['+nightly'] if feats and 'nightly' in feats[1] else []
+        demo = ['cargo'] + nightly + ['test', '--offline', '--test', tname] + feats + env_target
         rc0, out0 = run(demo, wt)
         res['demo_without_change'] = 'pass' if rc0 == 0 else 'FAIL'
         rc, out = run(['git', 'apply', os.path.join(d, 'patch.diff')], wt)
@@ -48,7 +49,7 @@ for sid in ids:
             passed = sum(int(l.split('ok. ')[1].split(' passed')[0]) for l in out2.split('\n') if l.startswith('test result: ok.'))
             res['suite_with_change'] = 'pass (%d tests)' % passed if rc2 == 0 else 'FAIL'
             if feats:
-                rc3, out3 = run(['cargo', 'test', '--no-fail-fast', '--offline'] + feats + env_target, wt)
+                rc3, out3 = run(['cargo'] + nightly + ['test', '--no-fail-fast', '--offline', '--lib', '--tests'] + feats + env_target, wt)
                 res['suite_with_change_' + feats[1]] = 'pass' if rc3 == 0 else 'FAIL'
         res['commands'] = [' '.join(demo), 'git apply patch.diff', ' '.join(demo), 'cargo test --workspace --no-fail-fast --offline']
     finally:
